@@ -75,6 +75,10 @@ CLOCK_PATCHES = {
                 ("diff := time.Since(ts)", "diff := verifNow().Sub(ts)", 1),
                 # the update loop looks at the clock every 500 ms; the concurrency soak lets virtual time run faster and shortens this
                 ("ticker := time.NewTicker(UpdateLoopTickerInterval)", "ticker := time.NewTicker(verifTickerInterval())", 1)],
+    # cluster mode: the harness runs the availability checks of the nodes itself; the defaults (check every 10 s, wait 3 s for
+    # partners that do not answer) become settings of the harness
+    "nodes.go": [("n.loopInterval = 10", "n.loopInterval = verifNodeLoopInterval()", 1),
+                 ("n.heartbeatTimeout = 3", "n.heartbeatTimeout = verifHeartbeatTimeout()", 1)],
 }
 
 
